@@ -245,13 +245,13 @@ pub(crate) fn scompare(inner: &In, deqs: &Deques<u8>, ec: u64, ws: u64, e: &SG, 
         if k < nkeys {
             let key = k as u8;
             match inner.cache.get(&key) {
-                None => assert!(!e.present[k], "C03,C01: an entry the model keeps is gone from the map (spurious loss)"),
+                None => assert!(!e.present[k], "C03,C01,C13,C12,C07: an entry the model keeps is gone from the map (spurious loss / wrong victim / imprecise invalidation)"),
                 Some(r) => {
                     let ent: &Ent = r.value();
                     assert!(e.present[k], "C01,C07,C04,C13: an entry the model removes/rejects is still in the map");
                     assert!(ent.value == e.v[k], "C01: map holds a value other than the latest insert");
                     assert!(ent.policy_weight() == e.w[k], "C10,C04: entry weight differs from the model");
-                    assert!(ent.last_accessed() == Some(inst(e.la[k])), "C06,C15,C03: last_accessed differs from the model");
+                    assert!(ent.last_accessed() == Some(inst(e.la[k])), "C06,C15,C03,C07: last_accessed differs from the model (only insert/update set it to now; an applied read may only move it forward)");
                     assert!(ent.last_modified() == Some(inst(e.lm[k])), "C05: last_modified differs from the model");
                     assert!(ent.is_admitted() == e.admitted[k], "C10,C08: is_admitted differs from the model");
                     assert!(ent.is_dirty() == e.dirty[k], "C05,C06: is_dirty differs from the model");
@@ -594,10 +594,10 @@ fn s_apply_reads(cfg: &SCfg, j: usize, hit: bool) {
     let mut e = st.g;
     let inner = &*st.b.inner;
     let key = j as u8;
-    // the read was recorded at an earlier clock reading (>= the entry's last access: get saw it live)
+    // the read was recorded at ANY earlier clock reading: the entry may have been updated (or read and
+    // applied) after the hit was recorded, so ts < last_accessed is a reachable situation
     let ts = any_t();
     kani::assume(le(ts, e.now));
-    if hit { kani::assume(le(e.la[j], ts)); }
     let op = if hit { ReadOp::Hit(IdH::h(key), TrioArc::clone(st.ent[j].as_ref().unwrap()), inst(ts)) } else { ReadOp::Miss(IdH::h(key)) };
     assert!(st.b.read_op_ch.try_send(op).is_ok());
     {
@@ -605,7 +605,12 @@ fn s_apply_reads(cfg: &SCfg, j: usize, hit: bool) {
         inner.apply_reads(&mut deqs, 1);
     }
     assert!(st.b.read_op_ch.len() == 0, "C09: apply_reads must drain what it was asked to");
-    if hit { e.la[j] = ts; e.touch_ao(j); }
+    if hit {
+        // an applied read may extend the idle deadline, never shorten it (C03) nor drag a fresh entry below the watermark (C07)
+        if le(e.la[j], ts) { e.la[j] = ts; }
+        e.touch_ao(j);
+        kani::cover!(!le(st.g.la[j], ts), "stale hit: recorded before the entry's last access");
+    }
     with_state(&st, |inner, d| {
         scompare(inner, d, inner.entry_count.load(), inner.weighted_size.load(), &e, cfg.n + 1);
         sketch_unchanged_or_inc(inner, &e, Some(IdH::h(key)));
@@ -905,6 +910,40 @@ fn l_purge_one(cfg: &SCfg) {
     std::mem::forget(st);
 }
 
+/// apply_reads with ONE queued Hit for resident j recorded at an arbitrary earlier reading `ts`
+/// (possibly before the entry's last update: ts < last_accessed): the read may extend the idle
+/// deadline, never shorten it, and the entry becomes most recently used.
+fn l_apply_reads_hit(cfg: &SCfg, j: usize) {
+    let st = sbuild(cfg);
+    let g = st.g;
+    let inner = &*st.b.inner;
+    let ts = any_t();
+    kani::assume(le(ts, g.now));
+    let op = ReadOp::Hit(IdH::h(j as u8), TrioArc::clone(st.ent[j].as_ref().unwrap()), inst(ts));
+    assert!(st.b.read_op_ch.try_send(op).is_ok());
+    {
+        let mut deqs = inner.deques.lock().expect("lock poisoned");
+        inner.apply_reads(&mut deqs, 1);
+    }
+    let e = st.ent[j].as_ref().unwrap();
+    let want = if le(g.la[j], ts) { ts } else { g.la[j] };
+    assert!(e.last_accessed() == Some(inst(want)), "C03,C07,C06: an applied read must set last_accessed to max(old, recorded reading): never backwards (a stale hit would shorten the idle deadline of an updated entry or drag a re-inserted key below the invalidate_all watermark)");
+    assert!(e.last_modified() == Some(inst(g.lm[j])), "C05: apply_reads must not touch last_modified");
+    if cfg.n == 2 {
+        let o = st.ent[1 - j].as_ref().unwrap();
+        assert!(o.last_accessed() == Some(inst(g.la[1 - j])), "C06: a read of one key must not touch another key's idle timer");
+    }
+    {
+        let deqs = inner.deques.lock().expect("lock poisoned");
+        let (nodes, an, ok) = dq::walk::<KeyHashDate<u8>, { MAXN }>(&deqs.probation);
+        assert!(ok && an == cfg.n && nodes[cfg.n - 1] == ao_ptr(e), "C12: an applied hit makes the entry most recently used");
+    }
+    assert!(st.b.read_op_ch.len() == 0 && inner.entry_count.load() == g.ec && inner.weighted_size.load() == g.ws, "C10,C09: apply_reads drains its op and leaves the counters alone");
+    kani::cover!(!le(g.la[j], ts), "stale hit (recorded before the entry's last access)");
+    kani::cover!(le(g.la[j], ts), "fresh hit");
+    std::mem::forget(st);
+}
+
 /// handle_remove of resident j (n = 1 or 2): counters, flags, nodes.
 fn l_remove(cfg: &SCfg, j: usize) {
     let st = sbuild(cfg);
@@ -952,6 +991,8 @@ sh!(s_evict_lru_within, s_evict_lru(&sc(2, Some(8), true, WT_A, false, false, fa
 sh!(s_purge_nothing, s_evict_expired(&sc(2, Some(9), true, WT_A, true, true, true, 1)));
 sh!(l_upsert_update_n1, l_upsert_update(&sc(1, Some(20), true, WT_A, false, true, false, 1), 0));
 sh!(l_upsert_update_n2_lru_ttl, l_upsert_update(&sc(2, Some(20), true, WT_A, true, true, false, 1), 0));
+sh!(l_apply_reads_hit_n1, l_apply_reads_hit(&sc(1, Some(3), false, W1, false, true, true, 1), 0));
+sh!(l_apply_reads_hit_n2_lru, l_apply_reads_hit(&sc(2, Some(3), false, W1, true, true, false, 1), 0));
 sh!(l_remove_n1, l_remove(&sc(1, Some(9), true, WT_A, true, false, false, 1), 0));
 sh!(l_remove_n2_mru, l_remove(&sc(2, Some(9), true, WT_A, false, true, false, 1), 1));
 
